@@ -177,6 +177,39 @@ def encode_op(op):
         return [63] + flat
     if k == 'compact':
         return [64] + list(op[2])
+    if k == 'wsnap':
+        return [70, op[1]]
+    if k == 'rsnap':
+        _, dst, d, rows, fmt = op
+        flat = []
+        for (u, v, t, e) in rows:
+            flat += [u, v, t, *_o(e)]
+        return [71, dst, int(d)] + flat
+    if k == 'wint':
+        return [72, op[1]]
+    if k == 'rint':
+        _, dst, d, rows, fmt = op
+        flat = []
+        for (u, v, o, t) in rows:
+            flat += [u, v, 1 if o == '+' else 0, t]
+        return [73, dst, int(d)] + flat
+    if k == 'nld':
+        return [74, op[1]]
+    if k == 'nlg':
+        _, dst, dd = op
+        hasdir = dd['directed'] is not None
+        flat = [x for na in dd['nodes'] for x in na] + [x for l in dd['links'] for x in l]
+        return [75, dst, int(hasdir), int(bool(dd['directed'])), int(dd['dirarg']), dd['graph'], len(dd['nodes'])] + flat
+    if k == 'rtext':
+        _, dst, kind, d, m, delim, keys, lines = op
+        flat = []
+        for ln in lines:
+            flat += [len(ln)] + [ord(c) for c in ln]
+        return [76, dst, 0 if kind == 'snap' else 1, int(d), ord(m), *(_o(None if delim is None else ord(delim))), int(keys)] + flat
+    if k == 'wsnaptext':
+        return [78, op[1], ord(op[2])]
+    if k == 'winttext':
+        return [79, op[1], ord(op[2])]
     if k == 'todir':
         return [31, op[1], op[2]]
     if k == 'toundir':
@@ -184,7 +217,7 @@ def encode_op(op):
     raise ValueError(op)
 
 
-OUTCOMES = {0: 'Done', 1: 'ValueError', 2: 'NetworkXError', 3: 'NetworkXNotImplemented', 4: 'KeyError', 5: 'Frozen'}
+OUTCOMES = {0: 'Done', 1: 'ValueError', 2: 'NetworkXError', 3: 'NetworkXNotImplemented', 4: 'KeyError', 5: 'Frozen', 6: 'TypeError'}
 
 
 def _pairs(l):
@@ -202,8 +235,27 @@ def decode_res(op, ints, directed_of):
         return None
     if k == 'streamchk':
         return (bool(ints[0]), bool(ints[1]))
-    if k in ('add', 'bulk', 'slice', 'todir', 'toundir'):
+    if k in ('add', 'bulk', 'slice', 'todir', 'toundir', 'rsnap', 'rint', 'nlg', 'rtext'):
         return OUTCOMES[ints[0]]
+    if k == 'wsnap':
+        return sorted(tuple(ints[i:i + 3]) for i in range(0, len(ints), 3))
+    if k == 'wint':
+        d = directed_of(op[1])
+        return sorted((ints[i + 3], _npair(d, ints[i], ints[i + 1]), '+' if ints[i + 2] else '-') for i in range(0, len(ints), 4))
+    if k == 'nld':
+        nn = ints[2]
+        nodes = _pairs(ints[3:3 + 2 * nn])
+        rest = ints[3 + 2 * nn:]
+        d = bool(ints[0])
+        return dict(directed=d, graph=ints[1], nodes=sorted(nodes),
+                    links=sorted(tuple(rest[i:i + 3]) for i in range(0, len(rest), 3)))
+    if k in ('wsnaptext', 'winttext'):
+        out, i = [], 0
+        while i < len(ints):
+            n = ints[i]
+            out.append(''.join(chr(c) for c in ints[i + 1:i + 1 + n]))
+            i += 1 + n
+        return sorted(out)
     if k in ('has', 'hasnode', 'isempty'):
         return bool(ints[0])
     if k == 'nbrs':
@@ -321,6 +373,13 @@ def directed_map(prog):
             d[op[2]] = True
         elif op[0] == 'toundir':
             d[op[2]] = False
+        elif op[0] in ('rsnap', 'rint'):
+            d[op[1]] = bool(op[2])
+        elif op[0] == 'rtext':
+            d[op[1]] = bool(op[3])
+        elif op[0] == 'nlg':
+            dd = op[2]
+            d[op[1]] = bool(dd['directed']) if dd['directed'] is not None else bool(dd['dirarg'])
     return d
 
 
@@ -346,6 +405,10 @@ def _exc_name(x):
         return 'NetworkXError'
     if isinstance(x, ValueError):
         return 'ValueError'
+    if isinstance(x, KeyError):
+        return 'KeyError'
+    if isinstance(x, TypeError):
+        return 'TypeError'
     return 'EXC:' + type(x).__name__
 
 
@@ -423,8 +486,12 @@ class Impl:
             return {kk: sorted(tuple(tuple(h) for h in p) for p in v) for kk, v in res.items()}
         if k == 'compact':
             return sorted(D.compact_timeslot(list(op[2])).items())
+        if k in ('rsnap', 'rint', 'nlg', 'rtext'):
+            return self.step_io_read(op)
         if op[1] not in self.R:
-            return 'NOREG'  # the register was never produced (its constructor raised): nothing to observe
+            return 'NOREG'
+        if k in ('wsnap', 'wint', 'nld', 'wsnaptext', 'winttext'):
+            return self.step_io_write(op)  # the register was never produced (its constructor raised): nothing to observe
         G = self.g(op[1])
         d = G.is_directed()
         if k == 'poke':
@@ -601,6 +668,161 @@ class Impl:
             except Exception as x:
                 return _exc_name(x)
         raise ValueError(op)
+
+
+def _io_methods():
+    import io, os, gzip, bz2, json, tempfile
+
+    def workdir():
+        d = os.path.join(VERIF, '.work', str(os.getpid()))
+        os.makedirs(d, exist_ok=True)
+        return d
+
+    def write_graph(self, G, fmt, kind):
+        D = dn()
+        delim, enc, target = fmt.get('delim', ' '), fmt.get('enc', 'utf-8'), fmt.get('target', 'plain')
+        fn = D.write_snapshots if kind == 'snap' else D.write_interactions
+        if target == 'fileobj':
+            buf = io.BytesIO()
+            fn(G, buf, delimiter=delim, encoding=enc)
+            raw = buf.getvalue()
+        else:
+            path = os.path.join(workdir(), 'w' + {'plain': '.txt', 'gz': '.gz', 'bz2': '.bz2'}[target])
+            fn(G, path, delimiter=delim, encoding=enc)
+            data = open(path, 'rb').read()
+            raw = gzip.decompress(data) if target == 'gz' else bz2.decompress(data) if target == 'bz2' else data
+            os.remove(path)
+        return raw.decode(enc)
+
+    def step_io_write(self, op):
+        D = dn()
+        I = self.ids
+        k = op[0]
+        G = self.g(op[1])
+        d = G.is_directed()
+        try:
+            if k in ('wsnap', 'wsnaptext'):
+                fmt = op[2] if k == 'wsnap' else dict(delim=op[2])
+                text = write_graph(self, G, fmt, 'snap')
+                if text and not text.endswith('\n'):
+                    return 'NO-FINAL-NEWLINE'
+                lines = text.split('\n')[:-1] if text else []
+                if k == 'wsnaptext':
+                    return sorted(lines)
+                rows = []
+                for ln in lines:
+                    f = ln.split(fmt.get('delim', ' '))
+                    if len(f) != 3:
+                        return 'BAD-ROW:%r' % ln
+                    rows.append((I.back(_unstr(I, f[0])), I.back(_unstr(I, f[1])), int(f[2])))
+                return sorted(rows)
+            if k in ('wint', 'winttext'):
+                fmt = op[2] if k == 'wint' else dict(delim=op[2])
+                text = write_graph(self, G, fmt, 'int')
+                lines = text.split('\n')[:-1] if text else []
+                if k == 'winttext':
+                    if not d:
+                        # the event keeps the endpoint order of the call that created it; the model stores (min,max)
+                        dl = op[2]
+                        lines = [dl.join(sorted(ln.split(dl)[:2], key=int) + ln.split(dl)[2:]) for ln in lines]
+                    return sorted(lines)
+                rows = []
+                for ln in lines:
+                    f = ln.split(fmt.get('delim', ' '))
+                    if len(f) != 4 or f[2] not in '+-':
+                        return 'BAD-ROW:%r' % ln
+                    rows.append((int(f[3]), _npair(d, I.back(_unstr(I, f[0])), I.back(_unstr(I, f[1]))), f[2]))
+                if [r[0] for r in rows] != sorted(r[0] for r in rows):
+                    return 'NOT-CHRONOLOGICAL'
+                return sorted(rows)
+            if k == 'nld':
+                from dynetx.readwrite import json_graph
+                data = json.loads(json.dumps(json_graph.node_link_data(G)))
+                self.last_nld = data
+                nodes = sorted((I.back(_unjson(I, n['id'])), attr_back({kk: vv for kk, vv in n.items() if kk != 'id'})) for n in data['nodes'])
+                links = sorted((I.back(_unjson(I, l['source'])), I.back(_unjson(I, l['target'])), l['time']) for l in data['links'])
+                for l in data['links']:
+                    if set(l) != {'source', 'target', 'time'}:
+                        return 'BAD-LINK:%r' % (l,)
+                return dict(directed=bool(data['directed']), graph=attr_back(data['graph']), nodes=nodes, links=links)
+        except Exception as x:
+            return _exc_name(x)
+
+    def step_io_read(self, op):
+        D = dn()
+        I = self.ids
+        k = op[0]
+        try:
+            if k in ('rsnap', 'rint'):
+                _, dst, d, rows, fmt = op
+                delim, enc, target = fmt.get('delim', ' '), fmt.get('enc', 'utf-8'), fmt.get('target', 'plain')
+                if k == 'rsnap':
+                    lines = [delim.join([str(I.to(u)), str(I.to(v)), str(t)] + ([] if e is None else [str(e)])) for (u, v, t, e) in rows]
+                else:
+                    lines = [delim.join([str(I.to(u)), str(I.to(v)), o, str(t)]) for (u, v, o, t) in rows]
+                data = ('\n'.join(lines) + ('\n' if lines else '')).encode(enc)
+                ntype = {'int': int, 'str': str}.get(I.family)
+                fn = D.read_snapshots if k == 'rsnap' else D.read_interactions
+                kw = dict(directed=bool(d), nodetype=ntype, timestamptype=int, delimiter=(None if fmt.get('read_ws') else delim), encoding=enc)
+                if target == 'fileobj':
+                    G = fn(io.BytesIO(data), **kw)
+                else:
+                    path = os.path.join(workdir(), 'r' + {'plain': '.txt', 'gz': '.gz', 'bz2': '.bz2'}[target])
+                    with (gzip.open(path, 'wb') if target == 'gz' else bz2.open(path, 'wb') if target == 'bz2' else open(path, 'wb')) as f:
+                        f.write(data)
+                    try:
+                        G = fn(path, **kw)
+                    finally:
+                        os.remove(path)
+                self.R[dst] = G
+                return 'Done'
+            if k == 'nlg':
+                from dynetx.readwrite import json_graph
+                _, dst, dd = op
+                data = {'graph': attr_to(dd['graph']),
+                        'nodes': [dict(attr_to(a), id=I.to(n)) for n, a in dd['nodes']],
+                        'links': [{'source': I.to(u), 'target': I.to(v), 'time': t} for u, v, t in dd['links']]}
+                if dd['directed'] is not None:
+                    data['directed'] = bool(dd['directed'])
+                data = json.loads(json.dumps(data))
+                if I.family == 'tuple':
+                    return 'SKIP'
+                self.R[dst] = json_graph.node_link_graph(data, directed=bool(dd['dirarg']))
+                return 'Done'
+            if k == 'rtext':
+                _, dst, kind, d, m, delim, keys, lines = op
+                path = os.path.join(workdir(), 't.txt')
+                with open(path, 'wb') as f:
+                    f.write(''.join(ln + '\n' for ln in lines).encode('utf-8'))
+                fn = D.read_snapshots if kind == 'snap' else D.read_interactions
+                try:
+                    G = fn(path, comments=m, directed=bool(d), delimiter=delim, nodetype=int, timestamptype=int, keys=bool(keys))
+                finally:
+                    os.remove(path)
+                self.R[dst] = G
+                return 'Done'
+        except Exception as x:
+            return _exc_name(x)
+
+    Impl.step_io_write = step_io_write
+    Impl.step_io_read = step_io_read
+
+
+def _unstr(I, s):
+    if I.family == 'int':
+        return int(s)
+    if I.family == 'str':
+        return s
+    raise ValueError('text formats are exercised with int and str ids only')
+
+
+def _unjson(I, x):
+    if I.family == 'tuple':
+        return tuple(x)
+    return x
+
+
+_io_methods()
 
 
 def _canon_paths(res, I):
